@@ -35,7 +35,40 @@ def _opts(vec):
     return "head=%s tail=%s sample=%s random_state=%s" % (o["head"], o["tail"], o["sample"], o["random_state"])
 
 
+FRAME_ROWS = Slice(
+    name="FrameRows.subsample",
+    module="FrameRows",
+    cfg={"quick": "mc/MC_FrameRows_quick.cfg", "thorough": "mc/MC_FrameRows_thorough.cfg"},
+    observe=("vf.obs_rows", "observe_rows"),
+    cap={"quick": 10000, "thorough": 120000},
+    select=lambda v: v.get("mode") == "subsample",
+)
+
+
+def compare_rows(vec: Dict[str, Any], obs: Dict[str, Any]) -> Outcome:
+    """DataFrameSchema level, pandas and polars (FrameRows.tla)"""
+    oc = Outcome()
+    exp = vec["expect"]
+    mism = []
+    if obs["kind"].startswith("Leak"):
+        mism.append("%s %s: %s (%s)" % (vec["backend"], vec["mode"], obs["kind"], obs.get("msg", "")[:80]))
+    elif obs["kind"] != exp["kind"]:
+        mism.append("%s %s head=%s tail=%s: specification predicts %s, pandera %s %s"
+                    % (vec["backend"], vec["mode"], vec["head"], vec["tail"], exp["kind"], obs["kind"], obs.get("reasons", "")))
+    elif obs["kind"] == "ok" and obs["kept"] != exp["kept"]:
+        mism.append("%s %s: rows returned %s, specification %s" % (vec["backend"], vec["mode"], obs["kept"], exp["kept"]))
+    if mism and vec.get("devs") and obs["kind"] == vec["asis"] and (vec["mode"] != "drop" or obs.get("kept") == vec["asis_kept"]):
+        oc.known = list(vec["devs"])
+        mism = []
+    oc.mismatches = mism
+    s = vec["schema"]
+    oc.sig = "rows|%s|%s|%s|%s|%s|n=%d|%s" % (vec["backend"], vec["mode"], sorted(s.items()), vec["head"], vec["tail"], len(vec["a"]), exp["kind"])
+    return oc
+
+
 def compare(vec: Dict[str, Any], obs: Dict[str, Any]) -> Outcome:
+    if vec.get("kind") == "rows":
+        return compare_rows(vec, obs)
     oc = Outcome()
     o = vec["opts"]
     if o.get("sample"):
@@ -57,7 +90,7 @@ def compare(vec: Dict[str, Any], obs: Dict[str, Any]) -> Outcome:
 PROP = Prop(
     id="C20",
     title="head/tail/sample validate exactly the requested rows and return the whole object",
-    slices=[SERIES_SUB],
+    slices=[SERIES_SUB, FRAME_ROWS],
     compare=compare,
     rule=("TLC enumerates Series/frames of <=3 (thorough 4) rows with repeated rows and repeated index labels, every head and "
           "tail <= len and the sample positions pandas itself draws for (n, random_state), and proves SubsampleIsSubframe "
